@@ -14,6 +14,13 @@
 (* GetTimelineId(mode) asks the id function for a fresh id exactly when    *)
 (* the reset marker is set or the mode forces it, and clears the marker.   *)
 (*                                                                         *)
+(* A restore is not one step of the code: RestoreFromReader first copies   *)
+(* the stream to a temporary file (arbitrarily slow for a network stream)   *)
+(* and only then takes the reload lock and swaps the file.  RestoreBegin /  *)
+(* RestoreSwap model the two halves; every other call may run in between    *)
+(* and still talks to the old database: the restore takes effect at the     *)
+(* swap, never earlier, and nothing read in the window may survive it.      *)
+(*                                                                         *)
 (* Concurrent part.  Readers/writers hold the reload lock shared for the   *)
 (* whole transaction, Restore holds it exclusively across close - rename - *)
 (* reopen (Go's RWMutex: a waiting writer blocks new readers).  Each       *)
@@ -34,34 +41,49 @@ VARIABLES content,     \* version number of the logical content
           snaps,       \* sequence of taken snapshots: [content, meta]  (snapshot id = index)
           nextId,      \* ids handed out by the id function so far
           notified,    \* restore-listener invocations so far
+          pending,     \* the snapshot a restore in its transfer window will install (NIL: no restore under way)
           last, steps
 
-svars == <<content, meta, snaps, nextId, notified, last, steps>>
+svars == <<content, meta, snaps, nextId, notified, pending, last, steps>>
 
 SInit == /\ content = 0
          /\ meta = [snap |-> NIL, reset |-> FALSE, timeline |-> NIL]
-         /\ snaps = << >> /\ nextId = 0 /\ notified = 0
+         /\ snaps = << >> /\ nextId = 0 /\ notified = 0 /\ pending = NIL
          /\ last = [op |-> "init"] /\ steps = 0
 
 Write == /\ content < MaxVersion
          /\ content' = content + 1
          /\ last' = [op |-> "write", ret |-> NIL]
-         /\ UNCHANGED <<meta, snaps, nextId, notified>>
+         /\ UNCHANGED <<meta, snaps, nextId, notified, pending>>
 
 Snapshot == /\ Len(snaps) < MaxSnaps
             /\ snaps' = Append(snaps, [content |-> content, meta |-> [meta EXCEPT !.snap = Len(snaps) + 1, !.reset = TRUE]])
             /\ last' = [op |-> "snapshot", ret |-> Len(snaps) + 1]
-            /\ UNCHANGED <<content, meta, nextId, notified>>
+            /\ UNCHANGED <<content, meta, nextId, notified, pending>>
 
-Restore(s) == /\ s \in 1..Len(snaps)
+Restore(s) == /\ s \in 1..Len(snaps) /\ pending = NIL
               /\ content' = snaps[s].content
               /\ meta' = snaps[s].meta
               /\ notified' = notified + 1
               /\ last' = [op |-> "restore", s |-> s, ret |-> NIL]
-              /\ UNCHANGED <<snaps, nextId>>
+              /\ UNCHANGED <<snaps, nextId, pending>>
+
+\* the two halves of a restore whose stream is slow: the transfer window opens ...
+RestoreBegin(s) == /\ s \in 1..Len(snaps) /\ pending = NIL
+                   /\ pending' = s
+                   /\ last' = [op |-> "restoreBegin", s |-> s, ret |-> NIL]
+                   /\ UNCHANGED <<content, meta, snaps, nextId, notified>>
+\* ... and closes: lock, swap, reopen, notify
+RestoreSwap == /\ pending # NIL
+               /\ content' = snaps[pending].content
+               /\ meta' = snaps[pending].meta
+               /\ notified' = notified + 1
+               /\ pending' = NIL
+               /\ last' = [op |-> "restore", s |-> pending, ret |-> NIL]
+               /\ UNCHANGED <<snaps, nextId>>
 
 GetSnapshotId == /\ last' = [op |-> "getSnapshotId", ret |-> meta.snap]
-                 /\ UNCHANGED <<content, meta, snaps, nextId, notified>>
+                 /\ UNCHANGED <<content, meta, snaps, nextId, notified, pending>>
 
 Forces(mode) == mode = "forceReset" \/ (mode = "initIfEmpty" /\ meta.timeline = NIL)
 GetTimelineId(mode) ==
@@ -70,13 +92,14 @@ GetTimelineId(mode) ==
        /\ nextId' = nextId + 1
        /\ meta' = [meta EXCEPT !.timeline = nextId + 1, !.reset = FALSE]
        /\ last' = [op |-> "getTimelineId", mode |-> mode, ret |-> nextId + 1, idCalls |-> 1]
-       /\ UNCHANGED <<content, snaps, notified>>
+       /\ UNCHANGED <<content, snaps, notified, pending>>
   ELSE /\ last' = [op |-> "getTimelineId", mode |-> mode, ret |-> meta.timeline, idCalls |-> 0]
-       /\ UNCHANGED <<content, meta, snaps, nextId, notified>>
+       /\ UNCHANGED <<content, meta, snaps, nextId, notified, pending>>
 
 SNext == /\ steps < MaxSteps /\ steps' = steps + 1
          /\ \/ ("write" \in OpsOn /\ Write) \/ ("snapshot" \in OpsOn /\ Snapshot) \/ ("restore" \in OpsOn /\ \E s \in 1..MaxSnaps : Restore(s))
             \/ ("getSnapshotId" \in OpsOn /\ GetSnapshotId) \/ ("getTimelineId" \in OpsOn /\ \E m \in Modes : GetTimelineId(m))
+            \/ ("window" \in OpsOn /\ ((\E s \in 1..MaxSnaps : RestoreBegin(s)) \/ RestoreSwap))
 
 \* properties of the sequential machine
 RestoreExact == [][last'.op = "restore" => (content' = snaps[last'.s].content /\ meta'.snap = last'.s /\ meta'.reset /\ notified' = notified + 1)]_svars
@@ -84,6 +107,10 @@ RestoreExact == [][last'.op = "restore" => (content' = snaps[last'.s].content /\
 FreshOnce == [][(last'.op = "getTimelineId" /\ last.op = "restore") => (last'.idCalls = 1 /\ ~meta'.reset)]_svars
 NoIdWithoutCause == [][(last'.op = "getTimelineId" /\ last'.idCalls = 1) => (meta.reset \/ Forces(last'.mode))]_svars
 SnapshotLeavesSourceAlone == [][last'.op = "snapshot" => (content' = content /\ meta' = meta)]_svars
+\* a restore takes effect at the swap and not before: while the stream is transferred every call sees the old database
+WindowIsInvisible == [][last'.op = "restoreBegin" => (content' = content /\ meta' = meta /\ notified' = notified)]_svars
+\* whatever happened in the window, the swap installs exactly the snapshot (nothing read or written in the window survives)
+SwapInstallsSnapshot == [][(pending # NIL /\ pending' = NIL) => (content' = snaps[pending].content /\ meta' = snaps[pending].meta)]_svars
 
 -----------------------------------------------------------------------------
 (* lock protocol (concurrent part): processes are transactions and one restorer *)
@@ -142,5 +169,5 @@ LockNext == CNext /\ UNCHANGED <<svars, hist>>                    \* exhaustive 
 \* emission of sequential behaviours for the replay
 GenNext == SNext /\ hist' = Append(hist, [last |-> last', content |-> content', meta |-> meta', notified |-> notified']) /\ UNCHANGED cvars
 Emit == (steps = MaxSteps) => PrintT(ToJson([steps |-> hist]))
-ViewSeq == <<content, meta, snaps, nextId, last.op, steps>>
+ViewSeq == <<content, meta, snaps, nextId, pending, last.op, steps>>
 =============================================================================
